@@ -567,7 +567,12 @@ impl Sirm {
     ) -> ControlResult<usize> {
         let si_info: u32 = self.read_register(device, sirm::SI_INFO)?;
         // Upper 8 bits specifies the exp of the alignment.
-        Ok(1 << (si_info >> 24_i32))
+        let exponent = si_info >> 24_i32;
+        1_usize.checked_shl(exponent).ok_or_else(|| {
+            ControlError::InvalidDevice(
+                format!("payload size alignment is too large: 2^{}", exponent).into(),
+            )
+        })
     }
 
     /// Enables stream.
